@@ -234,8 +234,12 @@ func c15Service(rc *core.RunCtx, e *Env, l *harness.Node) {
 	for k := 0; k < n && len(rc.Viol) == 0; k++ {
 		id := services[s.Choose(len(services), "svc.id")]
 		ttl := int64(s.Choose(8, "svc.ttl")) - 1 // -1..6 seconds
-		if s.Choose(6, "svc.inf") == 0 {
+		switch s.Choose(8, "svc.inf") {
+		case 0:
 			ttl = math.MaxInt64
+		case 1:
+			// lifetimes near the end of the representable range
+			ttl = []int64{math.MaxInt64 - 1, math.MaxInt64 - time.Now().Unix() + int64(s.Choose(5, "svc.edge")) - 2, 1 << 62}[s.Choose(3, "svc.huge")]
 		}
 		sp := uint64(s.Choose(40, "svc.sp"))
 		before := load()
@@ -312,6 +316,15 @@ func c15Service(rc *core.RunCtx, e *Env, l *harness.Node) {
 			if sp >= minBefore && minBefore != math.MaxUint64 && !anyNearExpiry {
 				if a, ok := after[id]; !ok || a.SafePoint != sp {
 					rc.Violate("c15.service", "valid-registration-lost", "service %s registered safe point %d >= min %d but stored entry is %+v (present=%v)", id, sp, minBefore, a, ok)
+					return
+				}
+				// ... and it lives at least as long as asked for (a lifetime that cannot be represented means forever)
+				want := int64(math.MaxInt64)
+				if ttl < math.MaxInt64-lo {
+					want = lo + ttl
+				}
+				if a := after[id]; a.ExpiredAt < want && id != "gc_worker" {
+					rc.Violate("c15.service", "registration-expires-early", "service %s registered with ttl %d at about %d but its stored expiry is %d", id, ttl, lo, a.ExpiredAt)
 					return
 				}
 			}
